@@ -40,7 +40,8 @@ Definition schema := list (ustring * kind).
 Record world := {
   classes : list (ustring * schema);       (* Python class -> _properties in order *)
   registry : list (ustring * ustring);     (* "2.1/objects/identity" -> class *)
-  det_id : list ustring                    (* 2.1 observable classes (deterministic id written into _inner) *)
+  det_id : list ustring;                   (* 2.1 observable classes (deterministic id written into _inner) *)
+  defaults : list (ustring * list (ustring * atom))   (* class -> properties with a `default` (all immutable values) *)
 }.
 
 Fixpoint lookup {A : Type} (k : ustring) (m : list (ustring * A)) : option A :=
@@ -292,7 +293,16 @@ Section Interp.
       let known := flat_map (fun nk => match assoc (fst nk) m with Some v => [(fst nk, v)] | None => [] end) sch in
       let extra := filter (fun kv => match lookup (fst kv) sch with Some _ => false | None => true end) m in
       let (h1, s) := alloc h (NDict []) in
-      bindv (init_loop s sch (known ++ extra) h1) (fun _ h2 =>
+      bindv (init_loop s sch (known ++ extra) h1) (fun _ h1' =>
+        (* _check_property: `if prop_name not in kwargs: kwargs[prop_name] = prop.default()`
+           (type, id, created, modified, spec_version, revoked, ...: immutable values; their
+           position in the dict is not modelled) *)
+        let present := match get h1' s with Some (NDict sm) => map fst sm | _ => [] end in
+        let missing := filter (fun na => negb (mem_ustr (fst na) present))
+                              (match lookup c (defaults W) with Some ds => ds | None => [] end) in
+        let fresh_id := u "<id-" ++ ustr_of_Z (Z.of_nat (length h1')) ++ u ">" in
+        let h2 := match update_items h1' s (map (fun na => (fst na, VA (if ustr_eqb (fst na) (u "id") then AStr fresh_id else snd na))) missing) with
+                  | Some hh => hh | None => h1' end in
         (* stix2.v21.base._Observable.__init__: self._inner["id"] = id_ *)
         let h3 := if mem_ustr c (det_id W) && negb (match assoc (u "id") m with Some _ => true | None => false end)
                   then match set_item h2 s (u "id") (VA (AStr (u "<deterministic-id>"))) with Some h' => h' | None => h2 end
